@@ -361,6 +361,24 @@ func runC07(c *Ctx) {
 			c07Light = false
 		}
 	}
+	// LowCardinality dictionaries wide enough for 32-bit keys (65 535 and more distinct values), the keys being the last thing
+	// on the wire: cuts inside the keys
+	for _, ts := range []string{"LowCardinality(UInt32)", "LowCardinality(String)"} {
+		t, err := parseCH(ts)
+		if err != nil {
+			continue
+		}
+		d := 65600
+		cols, err := buildCols(r, 1, d+40, genOpts{lcDistinct: d}, func() *TNode { return t })
+		if err != nil {
+			R.Count("unconstructible")
+			continue
+		}
+		R.Count("shape:lc-32bit-keys")
+		c07Light = true
+		c07Block(c, r, cols, d+40, 54460)
+		c07Light = false
+	}
 	// String as the last column with long values at the end (the decoder's buffer has to grow while reading them)
 	for _, lens := range [][]int{{3, 200}, {130, 5000}, {0, 128}, {4096, 1, 300}, {127, 129, 1000, 1000}} {
 		for _, lead := range []bool{false, true} {
